@@ -1,3 +1,4 @@
+#[derive(Clone)]
 pub(crate) struct SymbolTable {
     /// A vector of contexts
     /// The context at index 0 will always be the global context,
@@ -18,6 +19,7 @@ pub(crate) enum Scope {
 }
 
 /// A context is a type of environment to store values in. This can be either a global context or a local (to a function) context.
+#[derive(Clone)]
 pub(crate) struct Context {
     scope: Scope,
     max_size: usize,
